@@ -444,6 +444,8 @@ def run(chk):
         method_table(chk, prog, cfg)
         header_table(chk, prog, cfg)
         shared.header_order(chk, prog, "R3", cfg=cfg)
+        shared.target_split(chk, prog, "R8.target_split", cfg=cfg)
+        shared.header_line_split(chk, prog, "R8.header_split", "humphrey::http::request::Request::from_stream_inner", cfg=cfg)
         reads(chk, prog, cfg)
         address(chk, prog, cfg)
         cookies(chk, prog, cfg)
